@@ -105,7 +105,7 @@ fn violation_for(h: &DecHistory, check: &DecCheck, msg: String, sig: String) -> 
         |x: &DecHistory| {
             let mut sc = Scratch::new();
             let mut st = Stats::new();
-            (check.verdict)(x, &mut sc, &mut st, true).is_some()
+            (check.verdict)(x, &mut sc, &mut st, true).map_or(false, |(_, sig)| fw::known_open_id(&sig).is_none())
         },
     );
     let mut sc = Scratch::new();
@@ -161,8 +161,12 @@ pub fn run_dec_check(ctx: &Ctx, check: &DecCheck) -> Stats {
                                     let h = DecHistory { enc, mode, sink, repl, stream: stream.clone(), cuts: cuts.clone(), last_on_empty, caps: caps.clone(), fill, align: (si + pi) & 15 };
                                     st.evals += 1;
                                     if let Some((msg, sig)) = (check.verdict)(&h, &mut sc, st, true) {
-                                        st.violations.push(violation_for(&h, check, msg, sig));
-                                        return;
+                                        if let Some(id) = fw::known_open_id(&sig) {
+                                            st.known_hit(id);
+                                        } else {
+                                            st.violations.push(violation_for(&h, check, msg, sig));
+                                            return;
+                                        }
                                     }
                                     st.sample(1, || h.to_json());
                                 }
